@@ -1,5 +1,5 @@
 (* C06 Cleaning never destroys what StepUp does not own.
-   Property theorems only; proofs live in proofs/CleanProofs.v. *)
+   Property theorems only; proofs live in proofs/CleanProofs.v and proofs/CleanDirs.v. *)
 From Coq Require Import List NArith Bool.
 From SV Require Import lib.Bytes.
 From SV Require Import gen.GenClean.
@@ -7,6 +7,7 @@ From SV Require Import model.TrellisDD.
 From SV Require Import model.Clean.
 From SV Require Import proofs.TrellisDDProofs.
 From SV Require Import proofs.CleanProofs.
+From SV Require Import proofs.CleanDirs.
 Import ListNotations.
 Open Scope N_scope.
 
@@ -106,6 +107,23 @@ Theorem C06_dirs_spare_attached_static_trees_refuted :
   mark_dir_skips_static_trees = false -> ~ C06_dirs_spare_attached_static_trees.
 Proof. exact dirs_spare_attached_static_trees_refuted. Qed.
 
+(* D12, positive side (the code since fix 656d12c; the flag is regenerated from
+   Workflow.mark_dir_to_be_deleted on every run): with the static-tree exemption no directory removed
+   by Builder.finalize is the root of, or lies inside, a static tree that is attached in the resulting
+   graph (tree labels end in a separator, so `nlabel t` is a prefix of `d/` in both cases).  For all
+   guards, graphs and file systems. *)
+Theorem C06_dirs_spare_attached_static_trees_fixed :
+  mark_dir_skips_static_trees = true ->
+  forall c g f d t,
+    let r := finalize c (init_state g f) in
+    In d (s_dirs r) -> In t (gnodes (s_g r)) -> nkind t = KTREE -> ndet t = false ->
+    is_prefix (nlabel t) (d ++ [SLASH]) = false.
+Proof. exact dirs_spare_attached_static_trees_fixed. Qed.
+
+Theorem C06_dirs_spare_attached_static_trees_holds :
+  mark_dir_skips_static_trees = true -> C06_dirs_spare_attached_static_trees.
+Proof. exact dirs_spare_attached_static_trees_holds. Qed.
+
 (* Non-vacuity: a dropped step with a regular output the user modified (kept), an unmodified one
    (removed, then its directory), a volatile one (removed whatever its content) and a static file. *)
 Example C06_example :
@@ -124,3 +142,15 @@ Example C06_example :
   finalize (mkCtx true 0 true) (init_state g f) = init_state g f /\
   finalize (mkCtx false 16 true) (init_state g f) = init_state g f.
 Proof. vm_compute. repeat split; reflexivity. Qed.
+
+(* Non-vacuity of the positive D12 statement: on the witness of the finding (tree data/ attached, its
+   only used file deleted by the user, a dropped step with output o.txt) the fixed code removes o.txt
+   and leaves the emptied, still declared data/ alone. *)
+Example C06_example_d12_fixed :
+  mark_dir_skips_static_trees = true ->
+  let r := finalize (mkCtx false 0 true) (init_state d12_graph d12_fs) in
+  s_files r = [d12_o] /\ s_dirs r = [] /\ s_fs r = [(d12_data, FDir)].
+Proof.
+  intros Hflag. unfold mark_dir_skips_static_trees in Hflag.
+  first [ discriminate Hflag | vm_compute; repeat split; reflexivity ].
+Qed.
